@@ -40,6 +40,8 @@ pub enum Name {
     Path(u8),
     PathDeleted(u8),
     Pseudo(u8),
+    /// absolute path made of arbitrary (valid UTF-8) characters, used by the fuzz decoder
+    RawPath(String),
 }
 
 impl Name {
@@ -49,6 +51,7 @@ impl Name {
             Name::Path(i) => PATHS[*i as usize % PATHS.len()].to_string(),
             Name::PathDeleted(i) => format!("{} (deleted)", PATHS[*i as usize % PATHS.len()]),
             Name::Pseudo(i) => PSEUDO[*i as usize % PSEUDO.len()].to_string(),
+            Name::RawPath(p) => format!("/{p}"),
         }
     }
     /// name as the statement sees it: the mapped path without the kernel's
@@ -58,10 +61,15 @@ impl Name {
             Name::None => None,
             Name::Path(i) | Name::PathDeleted(i) => Some(PATHS[*i as usize % PATHS.len()].to_string()),
             Name::Pseudo(i) => Some(PSEUDO[*i as usize % PSEUDO.len()].to_string()),
+            Name::RawPath(p) => {
+                let t = format!("/{p}");
+                let t = t.trim().to_string();
+                Some(t.strip_suffix(" (deleted)").map(|x| x.to_string()).unwrap_or(t))
+            }
         }
     }
     pub fn is_path(&self) -> bool {
-        matches!(self, Name::Path(_) | Name::PathDeleted(_))
+        matches!(self, Name::Path(_) | Name::PathDeleted(_) | Name::RawPath(_))
     }
 }
 
